@@ -55,8 +55,32 @@ fn mb_keys_enabled() -> bool {
 }
 
 fn high_entropy_string(rng: &mut Prng, n: usize) -> String {
-    // 7-bit printable characters with as much entropy as valid one-byte UTF-8 allows: zstd
-    // usually stores such blocks raw.
+    // Valid UTF-8 whose *byte* histogram is close to uniform over ~240 values (one-, two- and
+    // three-byte characters mixed 128:30:16): zstd finds neither matches nor an entropy gain and
+    // the stream writer stores such blocks raw. Exactly `n` bytes long.
+    let mut s = String::with_capacity(n + 4);
+    while s.len() < n {
+        let room = n - s.len();
+        let r = rng.below(174);
+        let c = if r < 128 || room < 2 {
+            rng.below(128) as u32
+        } else if r < 158 || room < 3 {
+            0x80 + rng.below(0x800 - 0x80) as u32
+        } else {
+            loop {
+                let c = 0x800 + rng.below(0x10000 - 0x800) as u32;
+                if !(0xD800..=0xDFFF).contains(&c) {
+                    break c;
+                }
+            }
+        };
+        s.push(char::from_u32(c).unwrap());
+    }
+    s
+}
+
+/// 7-bit printable content: compresses to roughly 83%.
+fn printable_string(rng: &mut Prng, n: usize) -> String {
     let mut s = String::with_capacity(n);
     for _ in 0..n {
         s.push((32 + rng.below(95)) as u8 as char);
@@ -74,6 +98,9 @@ pub async fn run_suite(suite: &str, seed: u64, cases: usize) -> (String, String)
         match suite {
             "kv" => gen_kv(&mut sim, &mut crng, &mut stats, &name).await,
             "proc" => gen_proc(&mut sim, &mut crng, &mut stats, &name).await,
+            "delta" => gen_delta(&mut sim, &mut crng, &mut stats, &name).await,
+            "fill" => gen_fill(&mut sim, &mut crng, &mut stats, &name).await,
+            "wire" => gen_wire(&mut sim, &mut crng, &mut stats, &name).await,
             "apply" => gen_apply(&mut sim, &mut crng, &mut stats, &name).await,
             "catchup" => gen_catchup(&mut sim, &mut crng, &mut stats, &name).await,
             other => panic!("unknown suite {other}"),
@@ -479,6 +506,468 @@ pub async fn gen_catchup(sim: &mut Sim, rng: &mut Prng, stats: &mut Stats, name:
                 sim.catchup(n, &member, &kvs, mx, gc);
                 stats.bump(if consistent { "catchup_consistent" } else { "catchup_arbitrary" });
             }
+        }
+    }
+}
+
+// ------------------------------------------------------------------------------------------
+// S-delta: delta computation under arbitrary digests and size budgets (C07, C14).
+fn sized_value(rng: &mut Prng, len: usize, entropy: u64) -> String {
+    match entropy {
+        0 => "a".repeat(len),
+        1 => {
+            // mildly compressible: short alphabet
+            let mut s = String::with_capacity(len);
+            for _ in 0..len {
+                s.push((b'a' + rng.below(4) as u8) as char);
+            }
+            s
+        }
+        2 => printable_string(rng, len),
+        _ => high_entropy_string(rng, len),
+    }
+}
+
+fn pick_len(rng: &mut Prng, big: bool) -> usize {
+    if big {
+        match rng.below(10) {
+            0 => rng.range(16_370, 16_400) as usize,
+            1 => rng.range(32_750, 32_790) as usize,
+            2 => rng.range(49_130, 49_170) as usize,
+            3 => rng.range(60_000, 65_400) as usize,
+            4 => rng.range(1_900, 2_100) as usize,
+            _ => rng.range(0, 9_000) as usize,
+        }
+    } else {
+        *rng.pick(&[0usize, 1, 2, 5, 17, 255, 256, 300])
+    }
+}
+
+fn digest_text(entries: &[(ChitchatId, u64, u64, u64)]) -> String {
+    // BTreeMap order, like the implementation's dump
+    let mut sorted: Vec<&(ChitchatId, u64, u64, u64)> = entries.iter().collect();
+    sorted.sort_by(|a, b| a.0.cmp(&b.0));
+    sorted.dedup_by(|a, b| a.0 == b.0);
+    let mut out = format!("D {}", sorted.len());
+    for (id, hb, gc, mx) in sorted {
+        out.push_str(&format!(" {} {} {} {}", chitchat::verif::verif_dump_id(id), hb, gc, mx));
+    }
+    out
+}
+
+pub async fn gen_delta(sim: &mut Sim, rng: &mut Prng, stats: &mut Stats, name: &str) {
+    sim.start_case(name);
+    sim.no_events();
+    let mut spec = NodeSpec::simple(mk_id("s", 0, 5000));
+    spec.kv_grace_ns = 1_000;
+    sim.join(spec);
+    let me = mk_id("s", 0, 5000);
+    let mode = rng.below(4);
+    let big = mode != 0;
+    // own keys
+    let nown = if big { rng.range(0, 6) } else { rng.range(0, 40) };
+    for i in 0..nown {
+        let len = pick_len(rng, big);
+        let ent = rng.below(4);
+        let v = sized_value(rng, len, ent);
+        sim.set(0, &format!("k{i}"), &v);
+        if rng.chance(1, 6) {
+            sim.delete(0, &format!("k{}", rng.below(i + 1)));
+        }
+    }
+    // phantom members
+    let nmem = if big { rng.range(0, 5) } else { rng.range(0, 40) } as usize;
+    let mut members: Vec<(ChitchatId, u64, u64)> = Vec::new(); // id, gc, max
+    let mut syn_entries = Vec::new();
+    for i in 0..nmem {
+        let name_len = *rng.pick(&[1usize, 2, 8, 40]);
+        let nm: String = format!("m{i}").chars().chain(std::iter::repeat('x')).take(name_len.max(2 + i / 10)).collect();
+        let id = if rng.chance(1, 5) { mk_id6(&nm, rng.below(3), 5100 + i as u16) } else { mk_id(&nm, rng.below(3), 5100 + i as u16) };
+        syn_entries.push((wid_of(&id), 1, 0, 0));
+        members.push((id, 0, 0));
+    }
+    if nmem > 0 {
+        sim.deliver(0, &syn_bytes("c", &syn_entries));
+    }
+    for (id, gcv, maxv) in members.iter_mut() {
+        let gc = *rng.pick(&[0u64, 0, 2, 5]);
+        let mut ops = vec![WOp::Node { id: wid_of(id), gc, from: 0 }];
+        let nk = if big { rng.below(4) } else { rng.below(8) };
+        let mut ver = 0;
+        for j in 0..nk {
+            ver += 1 + rng.below(3);
+            let status = rng.below(3) as u8;
+            let len = pick_len(rng, big);
+            let ent = rng.below(4);
+            let v = if status == 1 { String::new() } else { sized_value(rng, len, ent) };
+            ops.push(WOp::Kv { key: format!("q{j}").into_bytes(), value: v.into_bytes(), version: ver, status });
+        }
+        if nk == 0 {
+            ver = rng.below(6);
+            if ver > 0 {
+                ops.push(WOp::SetMax(ver));
+            }
+        }
+        sim.deliver(0, &ack_bytes(&ops, 16384, false));
+        *gcv = gc;
+        *maxv = ver;
+    }
+    stats.add("delta_members", nmem as u64);
+    if sim.dead_case {
+        return;
+    }
+    // queries
+    let own_max = sim.nodes[0].chitchat.self_node_state().max_version();
+    let mut all: Vec<(ChitchatId, u64, u64)> = members.clone();
+    all.push((me.clone(), 0, own_max));
+    let nq = rng.range(2, 8);
+    for _ in 0..nq {
+        if sim.dead_case {
+            break;
+        }
+        let mut entries: Vec<(ChitchatId, u64, u64, u64)> = Vec::new();
+        for (id, gc, mx) in &all {
+            match rng.below(6) {
+                0 => {} // absent from the digest
+                _ => {
+                    let dmax = match rng.below(5) {
+                        0 => 0,
+                        1 => mx.saturating_sub(1),
+                        2 => *mx,
+                        3 => mx + 1,
+                        _ => rng.below(mx + 1),
+                    };
+                    let dgc = match rng.below(4) {
+                        0 => 0,
+                        1 => gc.saturating_sub(1),
+                        2 => *gc,
+                        _ => gc + 1,
+                    };
+                    entries.push((id.clone(), rng.below(5), dgc, dmax));
+                }
+            }
+        }
+        if rng.chance(1, 5) {
+            entries.push((mk_id("stranger", 0, 5999), 3, 1, 4));
+        }
+        let wentries: Vec<(WId, u64, u64, u64)> = {
+            let mut sorted = entries.clone();
+            sorted.sort_by(|a, b| a.0.cmp(&b.0));
+            sorted.iter().map(|(id, hb, gc, mx)| (wid_of(id), *hb, *gc, *mx)).collect()
+        };
+        let mut dbytes = Vec::new();
+        put_digest(&mut dbytes, &wentries);
+        let mtu = match rng.below(12) {
+            0 => 100,
+            1 => rng.range(100, 400) as usize,
+            2 => rng.range(16_380, 16_392) as usize,
+            3 => rng.range(32_760, 32_780) as usize,
+            4 => rng.range(49_140, 49_170) as usize,
+            5 => 65_507 - 1,
+            6 => 65_507 - 4,
+            7 => rng.range(400, 5_000) as usize,
+            8 => rng.range(60_000, 65_507) as usize,
+            _ => rng.range(100, 65_507) as usize,
+        };
+        let mut sched = Vec::new();
+        for (id, _, _) in &members {
+            if rng.chance(1, 8) {
+                sched.push(id.clone());
+            }
+        }
+        sim.delta(0, &digest_text(&entries), &dbytes, mtu, &sched);
+        stats.bump("delta_queries");
+        if mtu < 16_384 {
+            stats.bump("delta_mtu_below_block");
+        }
+    }
+    // and through the real handshake path (budget computed by process_message)
+    if rng.chance(1, 2) {
+        let mut sorted: Vec<(ChitchatId, u64, u64)> = members.clone();
+        sorted.sort_by(|a, b| a.0.cmp(&b.0));
+        let wentries: Vec<(WId, u64, u64, u64)> = sorted.iter().filter(|_| rng.chance(2, 3)).map(|(id, _, _)| (wid_of(id), 2, 0, 0)).collect();
+        sim.deliver(0, &syn_bytes("c", &wentries));
+        stats.bump("delta_via_syn");
+    }
+}
+
+// S-fill: payloads sized to land exactly on the budget (every block stored raw): the sizes at
+// which a wrong header reserve or a wrong block-count bound overflows the datagram.
+pub async fn gen_fill(sim: &mut Sim, rng: &mut Prng, stats: &mut Stats, name: &str) {
+    sim.start_case(name);
+    sim.no_events();
+    let mut spec = NodeSpec::simple(mk_id("s", 0, 5000));
+    spec.kv_grace_ns = 1_000;
+    sim.join(spec);
+    let mode = rng.below(3);
+    // message: 4 header + digest (2 + 1*(2+1+8+7+24)=44) + delta
+    // delta, all raw: blocks*3 + content + 1
+    let target_total: i64 = 65_507 + rng.range(0, 6) as i64 - 3; // aim at limit-3 .. limit+2
+    let digest_len: i64 = 2 + (2 + 1 + 8 + 7) + 24;
+    let node_op: i64 = 1 + (2 + 1 + 8 + 7) + 16;
+    let content_target = target_total - 4 - digest_len - 1;
+    match mode {
+        0 => {
+            // many 2000-byte values then one filler
+            let per = 1 + 2 + 3 + 2 + 2000 + 8 + 1;
+            let mut content = node_op;
+            let mut i = 0;
+            while content + per + 3 * ((content + per + 16383) / 16384) < content_target - 30 {
+                let v = high_entropy_string(rng, 2000);
+                sim.set(0, &format!("k{:02}", i), &v);
+                content += per;
+                i += 1;
+            }
+            // filler: choose the value length so that content + 3*blocks = content_target
+            let mut l: i64 = 0;
+            for cand in 0..40_000i64 {
+                let c = content + 1 + 2 + 3 + 2 + cand + 8 + 1;
+                let blocks = (c + 16383) / 16384;
+                if c + 3 * blocks >= content_target {
+                    l = cand;
+                    break;
+                }
+            }
+            let v = high_entropy_string(rng, l as usize);
+            sim.set(0, "kzz", &v);
+            stats.bump("fill_many_values");
+        }
+        1 => {
+            // one giant value spanning several raw blocks
+            let l = rng.range(65_200, 65_480) as usize;
+            let v = high_entropy_string(rng, l);
+            sim.set(0, "g", &v);
+            stats.bump("fill_giant_value");
+        }
+        _ => {
+            let l = (content_target - node_op - (1 + 2 + 1 + 2 + 8 + 1) - 3 * 4).max(0) as usize + rng.below(8) as usize;
+            let v = high_entropy_string(rng, l.min(65_500));
+            sim.set(0, "g", &v);
+            stats.bump("fill_single_exact");
+        }
+    }
+    // a peer that knows nothing about s asks
+    sim.deliver(0, &syn_bytes("c", &[]));
+    // and the ACK path: SYN-ACK from a peer whose digest says it knows nothing
+    let mut out = Vec::new();
+    put_header(&mut out, 1);
+    put_digest(&mut out, &[]);
+    put_stream(&mut out, &[], 16384, false);
+    sim.deliver(0, &out);
+}
+
+// ------------------------------------------------------------------------------------------
+// S-wire: codec in both directions, well-formed and malformed (C08, C09).
+fn str_of_len(rng: &mut Prng, n: usize) -> Vec<u8> {
+    match rng.below(3) {
+        0 => vec![b'a'; n],
+        1 => printable_string(rng, n).into_bytes(),
+        _ => high_entropy_string(rng, n).into_bytes(),
+    }
+}
+
+fn len_class(rng: &mut Prng) -> usize {
+    *rng.pick(&[0usize, 0, 1, 1, 2, 7, 255, 256, 257, 16_383, 16_384, 16_385, 40_000, 65_535])
+}
+
+fn rand_wid(rng: &mut Prng, i: usize) -> WId {
+    let name_len = if rng.chance(1, 30) { len_class(rng).min(65_535) } else { *rng.pick(&[0usize, 1, 2, 3, 9]) };
+    let mut name = str_of_len(rng, name_len);
+    if name_len >= 2 {
+        // make names distinct
+        let tag = format!("{i}");
+        let t = tag.as_bytes();
+        let k = t.len().min(name.len());
+        name[..k].copy_from_slice(&t[..k]);
+        if std::str::from_utf8(&name).is_err() {
+            name = vec![b'n'; name_len];
+            name[..k].copy_from_slice(&t[..k]);
+        }
+    }
+    let v6 = rng.chance(1, 3);
+    WId {
+        name,
+        generation: *rng.pick(&[0u64, 1, 255, 256, u64::MAX, 1_700_000_000]),
+        ipv: if v6 { 6 } else { 4 },
+        ip: if v6 { ((rng.next_u64() as u128) << 64) | rng.next_u64() as u128 } else { rng.next_u64() as u32 as u128 },
+        port: rng.next_u64() as u16,
+    }
+}
+
+fn rand_ops(rng: &mut Prng, hostile: bool) -> Vec<WOp> {
+    let mut ops = Vec::new();
+    let nnodes = rng.below(5);
+    for i in 0..nnodes {
+        let id = rand_wid(rng, i as usize);
+        ops.push(WOp::Node { id, gc: rng.below(9), from: rng.below(9) });
+        let nk = rng.below(5);
+        let mut ver = rng.below(5);
+        for _ in 0..nk {
+            ver += if hostile && rng.chance(1, 6) { 0 } else { 1 + rng.below(3) };
+            let klen = if rng.chance(1, 12) { len_class(rng) } else { rng.below(6) as usize };
+            let vlen = if rng.chance(1, 8) { len_class(rng) } else { rng.below(40) as usize };
+            // one op must stay <= 65,535 bytes for the real writer; the reader has no such limit
+            let (klen, vlen) = if klen + vlen > 65_000 && !hostile { (klen.min(20), vlen.min(65_000)) } else { (klen, vlen) };
+            let status = if hostile && rng.chance(1, 15) { rng.below(256) as u8 } else { rng.below(3) as u8 };
+            ops.push(WOp::Kv { key: str_of_len(rng, klen), value: str_of_len(rng, vlen), version: ver, status });
+        }
+        if nk == 0 && rng.chance(2, 3) {
+            ops.push(WOp::SetMax(rng.below(7)));
+        } else if hostile && rng.chance(1, 4) {
+            ops.push(WOp::SetMax(rng.below(12)));
+        }
+    }
+    if hostile {
+        for _ in 0..rng.below(3) {
+            let pos = rng.below(ops.len() as u64 + 1) as usize;
+            let op = match rng.below(5) {
+                0 => WOp::Raw(vec![rng.below(256) as u8]),
+                1 => WOp::SetMax(rng.below(9)),
+                2 => WOp::Kv { key: vec![0xff, 0xfe], value: vec![], version: 1, status: 0 }, // invalid UTF-8
+                3 => WOp::Kv { key: vec![0xed, 0xa0, 0x80], value: vec![0xc0, 0x80], version: 9, status: 0 }, // surrogate, overlong
+                _ => {
+                    if ops.is_empty() { WOp::SetMax(1) } else { ops[rng.below(ops.len() as u64) as usize].clone() }
+                }
+            };
+            ops.insert(pos, op);
+        }
+    }
+    ops
+}
+
+pub async fn gen_wire(sim: &mut Sim, rng: &mut Prng, stats: &mut Stats, name: &str) {
+    sim.start_case(name);
+    sim.no_events();
+    match rng.below(10) {
+        0..=2 => {
+            // messages emitted by real nodes: encoder correspondence + round trip
+            stats.bump("wire_emitted");
+            let big = rng.chance(1, 3);
+            for i in 0..2 {
+                let mut spec = NodeSpec::simple(node_id(i, rng));
+                spec.kv_grace_ns = 1_000;
+                sim.join(spec);
+            }
+            for _ in 0..rng.range(1, 8) {
+                let n = rng.below(2) as usize;
+                let len = if big { pick_len(rng, true) } else { rng.below(30) as usize };
+                let ent = rng.below(4);
+                let v = sized_value(rng, len, ent);
+                sim.set(n, pick_key(rng, true), &v);
+                if rng.chance(1, 4) {
+                    sim.delete(n, pick_key(rng, true));
+                }
+                if rng.chance(1, 4) {
+                    sim.tick(1_000).await;
+                    sim.gc(n);
+                }
+            }
+            let (a, b) = (0usize, 1usize);
+            if let Some(syn) = sim.syn(a) {
+                sim.wire_check(&syn);
+                if let Some(synack) = sim.deliver(b, &syn) {
+                    sim.wire_check(&synack);
+                    if let Some(ack) = sim.deliver(a, &synack) {
+                        sim.wire_check(&ack);
+                        sim.deliver(b, &ack);
+                    }
+                }
+            }
+            // foreign cluster: BadCluster
+            if let Some(rej) = sim.deliver(0, &syn_bytes("other", &[])) {
+                sim.wire_check(&rej);
+            }
+        }
+        3..=6 => {
+            // independently encoded, well-formed (modulo builder grammar) messages
+            stats.bump("wire_crafted");
+            let ops = rand_ops(rng, false);
+            // tiny blocks only for small payloads (the list-based model decoder is quadratic in the
+            // number of blocks)
+            let payload: usize = {
+                let mut b = Vec::new();
+                for op in &ops {
+                    crate::util::put_op(&mut b, op);
+                }
+                b.len()
+            };
+            let block = if payload > 3_000 { *rng.pick(&[16_384usize, 16_384, 1_000, 4_096, 65_535]) } else { *rng.pick(&[16_384usize, 1, 5, 64, 1000, 65_535]) };
+            let compress = rng.chance(1, 2);
+            let nd = if rng.chance(1, 40) { rng.range(500, 2000) } else { rng.below(6) } as usize;
+            let mut entries: Vec<(WId, u64, u64, u64)> = (0..nd).map(|i| (rand_wid(rng, i), rng.below(9), rng.below(9), rng.below(9))).collect();
+            if rng.chance(1, 2) {
+                // sorted like a BTreeMap would emit them? not necessarily: the decoder re-sorts
+                entries.reverse();
+            }
+            let bytes = match rng.below(3) {
+                0 => syn_bytes(if rng.chance(1, 2) { "c" } else { "" }, &entries),
+                1 => synack_bytes(&entries, &ops, block, compress),
+                _ => ack_bytes(&ops, block, compress),
+            };
+            sim.decode(&bytes);
+            sim.wire_check(&bytes);
+        }
+        _ => {
+            // malformed / hostile
+            stats.bump("wire_malformed");
+            let ops = rand_ops(rng, true);
+            let entries: Vec<(WId, u64, u64, u64)> = (0..rng.below(4) as usize).map(|i| (rand_wid(rng, i), rng.below(9), rng.below(9), rng.below(9))).collect();
+            let payload: usize = {
+                let mut b = Vec::new();
+                for op in &ops {
+                    crate::util::put_op(&mut b, op);
+                }
+                b.len()
+            };
+            let block = if payload > 3_000 { 16_384usize } else { *rng.pick(&[16_384usize, 3, 64]) };
+            let mut bytes = match rng.below(3) {
+                0 => syn_bytes("c", &entries),
+                1 => synack_bytes(&entries, &ops, block, rng.chance(1, 2)),
+                _ => ack_bytes(&ops, block, rng.chance(1, 2)),
+            };
+            match rng.below(6) {
+                0 => {
+                    // truncate
+                    let n = rng.below(bytes.len() as u64 + 1) as usize;
+                    bytes.truncate(n);
+                    stats.bump("wire_truncated");
+                }
+                1 => {
+                    // flip bits
+                    for _ in 0..rng.range(1, 4) {
+                        if !bytes.is_empty() {
+                            let i = rng.below(bytes.len() as u64) as usize;
+                            bytes[i] ^= 1 << rng.below(8);
+                        }
+                    }
+                    stats.bump("wire_bitflip");
+                }
+                2 => {
+                    // pure noise, sometimes with a valid header
+                    let n = rng.below(200) as usize;
+                    let mut b: Vec<u8> = (0..n).map(|_| rng.below(256) as u8).collect();
+                    if rng.chance(1, 2) && n >= 4 {
+                        b[0] = 0x53;
+                        b[1] = 0xb0;
+                        b[2] = 0;
+                        b[3] = rng.below(5) as u8;
+                    }
+                    bytes = b;
+                    stats.bump("wire_noise");
+                }
+                3 => {
+                    // trailing garbage
+                    bytes.extend_from_slice(&[1, 2, 3]);
+                    stats.bump("wire_trailing");
+                }
+                _ => stats.bump("wire_hostile_ops"),
+            }
+            sim.decode(&bytes);
+            // and feed it to a live node
+            let mut spec = NodeSpec::simple(mk_id("r", 0, 3000));
+            spec.kv_grace_ns = 1_000;
+            sim.join(spec);
+            sim.deliver(0, &bytes);
         }
     }
 }
